@@ -9,6 +9,7 @@ package kvx14
 import (
 	"errors"
 	"fmt"
+	"strings"
 	"sync"
 
 	"github.com/tikv/pd/server/kv"
@@ -49,7 +50,21 @@ type Base struct {
 	parkAt  string
 	parked  chan struct{}
 	release chan struct{}
+	// further, independent parking points (AddPark): by plan key, or by key suffix for keys outside every group
+	extra []*Park
 }
+
+// Park is one additional parking point. Parked is closed when a write has arrived there; Release lets it through.
+type Park struct {
+	planKey, suffix string
+	Parked          chan struct{}
+	release         chan struct{}
+	hit             bool
+	once            sync.Once
+}
+
+// Release lets the parked write through (or disarms the point if no write has arrived yet).
+func (p *Park) Release() { p.once.Do(func() { close(p.release) }) }
 
 func Wrap(inner kv.Base, group func(string) (string, bool)) *Base {
 	return &Base{Inner: inner, Group: group, seen: map[string]int{}}
@@ -72,6 +87,20 @@ func (b *Base) Arm(plan map[string]Kind) {
 		b.release = nil
 	}
 	b.parked = nil
+	for _, p := range b.extra {
+		p.Release()
+	}
+	b.extra = nil
+}
+
+// AddPark adds a parking point after Arm/ArmPark: the first write whose plan key is planKey (counted keys) or, when
+// suffix != "", the first write of ANY key ending in suffix (also keys outside every group, e.g. "config").
+func (b *Base) AddPark(planKey, suffix string) *Park {
+	b.mu.Lock()
+	defer b.mu.Unlock()
+	p := &Park{planKey: planKey, suffix: suffix, Parked: make(chan struct{}), release: make(chan struct{})}
+	b.extra = append(b.extra, p)
+	return p
 }
 
 // ArmPark is Arm plus one parking point: the write PlanKey(group, idx) blocks before it is sent until Release is called.
@@ -120,6 +149,16 @@ func (b *Base) Entries() []Entry {
 
 func (b *Base) next(op, key, value string) Kind {
 	b.mu.Lock()
+	for _, p := range b.extra {
+		if !p.hit && p.suffix != "" && strings.HasSuffix(key, p.suffix) {
+			p.hit = true
+			close(p.Parked)
+			b.mu.Unlock()
+			<-p.release
+			b.mu.Lock()
+			break
+		}
+	}
 	g, ok := "", true
 	if b.Group != nil {
 		g, ok = b.Group(key)
@@ -137,6 +176,13 @@ func (b *Base) next(op, key, value string) Kind {
 		b.parkAt = ""
 		close(b.parked)
 		wait = b.release
+	}
+	for _, p := range b.extra {
+		if wait == nil && !p.hit && p.suffix == "" && p.planKey == pk {
+			p.hit = true
+			close(p.Parked)
+			wait = p.release
+		}
 	}
 	b.mu.Unlock()
 	if wait != nil {
